@@ -38,6 +38,7 @@ var plans = map[string]Plan{
 			{Test: "^TestProps$/^sched_independent$", Checks: checks(150, 4000), Shards: shards(4, 8)},
 			{Test: "^TestProps$/^sched_independent_pipelined$", Checks: checks(150, 4000), Shards: shards(4, 8)},
 			{Test: "^TestProps$", Checks: checks(40, 1200), Shards: shards(3, 8), Race: true},
+			{Test: "^TestProps$/^cold_concurrent$", Checks: checks(2, 3), Shards: shards(8, 48), Race: true},
 		},
 		Assumptions: []string{
 			"schedules are perturbed by the verif-tagged yield hook in Processor_execute plus GOMAXPROCS; an interleaving these cannot provoke is not explored",
